@@ -1,7 +1,7 @@
 # C05 — honest Schnorr / Chaum-Pedersen / plaintext-knowledge / decryption proofs verify
 from props.util import *
 
-TRUSTED = BASE_TRUSTED + ["ristretto255 group laws are the hypothesis `Laws B mem` of the generic theorems; the ristretto runs are tied to the executable Gallina ristretto255 model (Model/Ristretto.v, RBackend.v) by correspondence, not proved"]
+TRUSTED = BASE_TRUSTED + ["ristretto255: completeness of Schnorr / Chaum-Pedersen proofs is proved about the executable curve model with no group-law hypothesis (Proofs/RistrettoGroup.v); for bases other than the standard generator the order condition [l]g = 0 is a premise; the ristretto runs are tied to the Gallina ristretto255 model (Model/Ristretto.v, RBackend.v) by correspondence"]
 RULE = ("exhaustive (secret, nonce) over Z_q x Z_q of p=23 for every base in the group (default and explicit, incl. the "
         "identity and g) on num-bigint (nonce chosen through the scripted RNG) and random nonces on malachite; boundary "
         "secrets 0,1,q-1 and random at 16/62/2048 bits; labels empty/short/long; every prover output and every verifier "
